@@ -10,7 +10,8 @@ Row = identity form (DNS 3/4 labels, IDN, upper case, single label, IPv4, IPv6 i
         wrong, IP SAN match/mismatch, IP literal as dNSName, DNS name for an IP identity)
       x chain (direct, self-signed, untrusted CA, intermediate sent / missing / expired)
       x validity (valid, expired, not yet valid)
-      x trust configuration (CA file, hashed CA directory, default store)
+      x trust configuration (CA file, hashed CA directory, default store = certifi.where(), pointed by the harness at a
+        bundle with one generated "public" root; chains rooted there are acceptable only when no own trust is configured)
       x ssl_insecure
       x how the handshake is started (server already connected / opened by the child / SNI taken from a client hello /
         server.sni set explicitly and different from the address)
@@ -50,6 +51,7 @@ ASSUMPTIONS = [
     "OpenSSL is the verifier; the check decides whether mitmproxy's configuration of it (trust store, hostflags, "
     "set1_host/set1_ip, error path) implements the property",
     "certificate validity is judged against the wall clock with margins of >= 1 day",
+    "the default bundle is whatever certifi.where() names at call time (the harness substitutes a generated bundle)",
     "identities OpenSSL refuses to verify at all (single-character or trailing-dot names) may fail closed",
 ]
 LEVEL_TEXT = ("finite certificate/identity/trust matrix enumerated (reduced product) plus randomized rows, each decided by "
@@ -72,7 +74,9 @@ UNVERIFIABLE = ("longlabel", "emptylabel", "leadingdot", "empty")
 SAN_DNS = ["exact", "exact-case", "multi", "mismatch", "sibling", "wild-ok", "wild-deep", "wild-self", "wild-bare", "wild-double",
            "partial-prefix", "partial-suffix", "partial-mid", "wild-inner", "cn-only", "cn-right-san-wrong", "ip-san-only"]
 SAN_IP = ["ip-exact", "ip-multi", "ip-mismatch", "ip-as-dns", "cn-only", "dns-only"]
-CHAINS = ["direct", "self-signed", "untrusted-ca", "inter-sent", "inter-missing", "inter-expired"]
+CHAINS = ["direct", "self-signed", "untrusted-ca", "inter-sent", "inter-missing", "inter-expired",
+          # issued by a CA of the *default* bundle (a "publicly trusted" server): acceptable exactly when no own trust is configured
+          "public-ca"]
 TIMES = ["valid", "expired", "not-yet"]
 TRUSTS = ["file", "dir", "default"]
 MODES = ["eager", "lazy", "client-sni", "explicit-sni"]
@@ -211,9 +215,15 @@ def _dns_match(labels, pattern: str) -> bool:
 def ref_acceptable(case) -> bool:
     host, ref = identity(case)
     cn, sans = san_list(case, ref)
-    chain_ok = case["trust"] in ("file", "dir") and case["chain"] in ("direct", "inter-sent")
     time_ok = case["time"] == "valid"
-    return chain_ok and time_ok and ref_name_match(ref, cn, sans)
+    return chain_trusted(case) and time_ok and ref_name_match(ref, cn, sans)
+
+
+def chain_trusted(case) -> bool:
+    """the configured trust anchors replace the default bundle (a configured CA file or directory means: only those)"""
+    if case["trust"] in ("file", "dir"):
+        return case["chain"] in ("direct", "inter-sent")
+    return case["chain"] == "public-ca"
 
 
 def fails_closed_ok(case) -> bool:
@@ -293,7 +303,8 @@ def matrix():
             combos += [(c, "valid", "file") for c in CHAINS[1:]]
             combos += [("direct", t, "file") for t in TIMES[1:]]
             combos += [("direct", "valid", t) for t in TRUSTS[1:]]
-            combos += [("inter-sent", "valid", "dir"), ("inter-sent", "expired", "file"), ("untrusted-ca", "expired", "default")]
+            combos += [("inter-sent", "valid", "dir"), ("inter-sent", "expired", "file"), ("untrusted-ca", "expired", "default"),
+                       ("public-ca", "valid", "default"), ("public-ca", "valid", "dir")]
             for chain, time, trust in combos:
                 for insecure in (False, True):
                     rows.append({"ident": ident, "san": san, "chain": chain, "time": time, "trust": trust, "insecure": insecure,
@@ -315,6 +326,12 @@ def env():
     inter_exp = T.make_ca("verif expired intermediate", 13, issuer=root, path_length=0,
                           not_before=T.NOW - 90 * T.DAY, not_after=T.NOW - 3 * T.DAY)
     untrusted = T.make_ca("verif untrusted root", 14)
+    # The default trust store: mitmproxy falls back to certifi.where() when no own trust is configured.  The harness lets
+    # that name a bundle with one generated "public" root, so that "a server the default bundle trusts" exists offline.
+    public = T.make_ca("verif public root (stands for the default bundle)", 15)
+    import certifi
+    bundle = T.write_file("trust/default-bundle.pem", public.pem)
+    certifi.where = lambda: bundle
     ca_file = T.write_file("trust/root.pem", root.pem)
     from OpenSSL import crypto
     h = crypto.X509.from_cryptography(root.cert).subject_name_hash()
@@ -322,14 +339,14 @@ def env():
     os.makedirs(ca_dir, exist_ok=True)
     T.write_file("trustdir/%08x.0" % h, root.pem)
     e = T.TlsEnv()
-    _ENV.update(env=e, root=root, inter=inter, inter_exp=inter_exp, untrusted=untrusted, ca_file=ca_file, ca_dir=ca_dir,
+    _ENV.update(env=e, root=root, public=public, inter=inter, inter_exp=inter_exp, untrusted=untrusted, ca_file=ca_file, ca_dir=ca_dir,
                 mitm_ca=e.addon.certstore.default_ca.to_pem())
     return _ENV
 
 
 def make_leaf(E, case, cn, sans):
     issuer = {"direct": E["root"], "self-signed": None, "untrusted-ca": E["untrusted"], "inter-sent": E["inter"],
-              "inter-missing": E["inter"], "inter-expired": E["inter_exp"]}[case["chain"]]
+              "inter-missing": E["inter"], "inter-expired": E["inter_exp"], "public-ca": E["public"]}[case["chain"]]
     nb, na = {"valid": (T.NOW - 2 * T.DAY, T.NOW + 30 * T.DAY), "expired": (T.NOW - 30 * T.DAY, T.NOW - 2 * T.DAY),
               "not-yet": (T.NOW + 2 * T.DAY, T.NOW + 30 * T.DAY)}[case["time"]]
     return T.make_cert(key_index=20, cn=cn, sans=sans, issuer=issuer, not_before=nb, not_after=na,
@@ -536,7 +553,7 @@ def _s(x):
 
 def _why(case, ref, cn, sans):
     out = []
-    if not (case["trust"] in ("file", "dir") and case["chain"] in ("direct", "inter-sent")):
+    if not chain_trusted(case):
         out.append("chain")
     if case["time"] != "valid":
         out.append("time")
